@@ -478,11 +478,111 @@ func (x *Exec) loopModSet(li *loopInfo) *loopMods {
 				}
 			}
 			x.p.instrMods(x.c, in, ms, x.fn)
+			// captured variables kept as local cells that a closure called here assigns
+			var cv *ssa.CallCommon
+			switch in := in.(type) {
+			case *ssa.Call:
+				cv = &in.Call
+			case *ssa.Defer:
+				cv = &in.Call
+			}
+			if cv != nil && !cv.IsInvoke() {
+				if callee := resolveCallee(cv.Value); callee != nil && callee.Parent() != nil {
+					for _, a := range closureStores(callee, map[*ssa.Function]bool{}) {
+						if !a.Heap || privateAlloc(a) {
+							lm.locals[x.cellKey(a)] = a
+						}
+					}
+				}
+			}
 		}
 	}
 	lm.regions = ms.Regions
 	lm.all = ms.All
 	return lm
+}
+
+// closureStores: the variables of enclosing functions that the closure fn
+// (or a closure it calls) assigns through its free variables.
+func closureStores(fn *ssa.Function, seen map[*ssa.Function]bool) []*ssa.Alloc {
+	if seen[fn] {
+		return nil
+	}
+	seen[fn] = true
+	var out []*ssa.Alloc
+	for _, b := range fn.Blocks {
+		for _, in := range b.Instrs {
+			switch in := in.(type) {
+			case *ssa.Store:
+				if fv := rootFreeVar(in.Addr); fv != nil {
+					out = append(out, bindingAllocs(fv)...)
+				}
+			case *ssa.Call:
+				if !in.Call.IsInvoke() {
+					if callee := resolveCallee(in.Call.Value); callee != nil && callee.Parent() != nil {
+						out = append(out, closureStores(callee, seen)...)
+					}
+				}
+			case *ssa.Defer:
+				if !in.Call.IsInvoke() {
+					if callee := resolveCallee(in.Call.Value); callee != nil && callee.Parent() != nil {
+						out = append(out, closureStores(callee, seen)...)
+					}
+				}
+			}
+		}
+	}
+	return out
+}
+
+func rootFreeVar(v ssa.Value) *ssa.FreeVar {
+	for {
+		switch a := v.(type) {
+		case *ssa.FreeVar:
+			return a
+		case *ssa.FieldAddr:
+			v = a.X
+		case *ssa.IndexAddr:
+			if _, ok := a.X.Type().Underlying().(*types.Pointer); ok {
+				v = a.X
+			} else {
+				return nil
+			}
+		default:
+			return nil
+		}
+	}
+}
+
+// bindingAllocs: the variables a free variable may be bound to.
+func bindingAllocs(fv *ssa.FreeVar) []*ssa.Alloc {
+	fn := fv.Parent()
+	par := fn.Parent()
+	if par == nil {
+		return nil
+	}
+	idx := -1
+	for i, f := range fn.FreeVars {
+		if f == fv {
+			idx = i
+		}
+	}
+	var out []*ssa.Alloc
+	for _, b := range par.Blocks {
+		for _, in := range b.Instrs {
+			mc, ok := in.(*ssa.MakeClosure)
+			if !ok || mc.Fn != ssa.Value(fn) || idx < 0 || idx >= len(mc.Bindings) {
+				continue
+			}
+			switch bv := mc.Bindings[idx].(type) {
+			case *ssa.Alloc:
+				out = append(out, bv)
+			case *ssa.FreeVar:
+				out = append(out, bindingAllocs(bv)...)
+			}
+		}
+	}
+	return out
 }
 
 // privateAlloc: a variable that is captured by closures but cannot be
@@ -548,35 +648,74 @@ func closureConfined(mc *ssa.MakeClosure) bool {
 		case *ssa.DebugRef:
 		case *ssa.Store:
 			la, ok := r.Addr.(*ssa.Alloc)
-			if !ok || la.Heap || la.Referrers() == nil {
+			if !ok || la.Referrers() == nil {
 				return false
 			}
+			nstores := 0
 			for _, lr := range *la.Referrers() {
 				switch lr := lr.(type) {
 				case *ssa.Store:
 					if lr.Addr != ssa.Value(la) {
 						return false
 					}
+					nstores++
 				case *ssa.DebugRef:
 				case *ssa.UnOp:
-					if lr.Referrers() == nil {
+					if !onlyCalled(lr) {
 						return false
 					}
-					for _, ur := range *lr.Referrers() {
-						switch ur := ur.(type) {
-						case *ssa.Call:
-							if ur.Call.Value != ssa.Value(lr) {
+				case *ssa.MakeClosure:
+					// the variable is captured by a sibling closure that only loads and calls it
+					fn2, ok := lr.Fn.(*ssa.Function)
+					if !ok {
+						return false
+					}
+					for i, b := range lr.Bindings {
+						if b != ssa.Value(la) {
+							continue
+						}
+						fv := fn2.FreeVars[i]
+						if fv.Referrers() == nil {
+							continue
+						}
+						for _, fr := range *fv.Referrers() {
+							switch fr := fr.(type) {
+							case *ssa.UnOp:
+								if !onlyCalled(fr) {
+									return false
+								}
+							case *ssa.DebugRef:
+							default:
 								return false
 							}
-						case *ssa.DebugRef:
-						default:
-							return false
 						}
 					}
 				default:
 					return false
 				}
 			}
+			if la.Heap && nstores != 1 {
+				return false
+			}
+		default:
+			return false
+		}
+	}
+	return true
+}
+
+// onlyCalled: a loaded function value that is only used as the callee of calls.
+func onlyCalled(lr *ssa.UnOp) bool {
+	if lr.Referrers() == nil {
+		return false
+	}
+	for _, ur := range *lr.Referrers() {
+		switch ur := ur.(type) {
+		case *ssa.Call:
+			if ur.Call.Value != ssa.Value(lr) {
+				return false
+			}
+		case *ssa.DebugRef:
 		default:
 			return false
 		}
